@@ -238,12 +238,14 @@ def _single(payload, k):
 def _judge_path(ctx, payload, gobs, mobs):
     """final verdict for one single-path observation that needs judging"""
     gev, gres = gobs
-    for where, idx in _judge_open(ctx, payload, gev):
+    verdicts = _judge_open(ctx, payload, gev)
+    for where, idx in verdicts:
         if where != "in":
             return "viol", "the real code OPENS a path that is not inside the root (hook), result %s" % gres
-        if gres.startswith("I") and idx != gres[1:]:
-            return "viol", "content %s is not the file the opened path names (%s)" % (gres, idx)
-    return "note", "a differently spelled open that is inside the root"
+    # the content: what the model predicts for this path, or else the file the LAST opened string names
+    if gres.startswith("I") and gres != mobs[1] and verdicts and verdicts[-1][1] != gres[1:]:
+        return "viol", "content %s is not the file the opened path names (%s)" % (gres, verdicts[-1][1])
+    return "note", "a differently spelled / shorter sequence of opens, all inside the root"
 
 
 def _strace_sample(ctx, cases, n):
@@ -251,7 +253,7 @@ def _strace_sample(ctx, cases, n):
     if not shutil.which("strace"):
         ctx.notes.append("strace not available: file accesses that bypass the hook are covered by the source fact only")
         return
-    idxs = [i for i in sorted(cases) if cases[i][0] in "RIJ"]
+    idxs = [i for i in sorted(cases) if cases[i][0].upper() in "RIJ"]
     idxs = idxs[:: max(1, len(idxs) // n)][:n]
     trace = os.path.join(ctx.work, "c17-strace.txt")
     try:
@@ -280,6 +282,9 @@ def _strace_sample(ctx, cases, n):
             continue
         if path.startswith(("/proc/", "/sys/", "/dev/", "/etc/", "/usr/", "/lib")):
             continue
+        if m.group(1) in ("newfstatat", "stat", "lstat", "statx", "fstatat64") and (
+                path == "." or (path.startswith("/") and (base + "/").startswith(path.rstrip("/") + "/"))):
+            continue  # os.Getwd's probing of "." and $PWD (an ancestor of the sandbox), not a path of the import
         seen += 1
         canon = path.replace(base[1:], "@B").replace(par1[1:], "@1").replace(par2[1:], "@2").replace(os.path.basename(base), "@:")
         if len(keys) < 20000:
